@@ -15,7 +15,7 @@ from hsverif.family import Family, merge_stats, run_family
 from props import engine_script as es
 
 LEVEL = "proof"
-FILES = ["Engine/Engine.v", "Engine/Script.v", "Engine/EngineProofs.v", "Engine/ScriptProofs.v", "C02/Process.v", "C02/Props.v"]
+FILES = ["Engine/Engine.v", "Engine/Script.v", "Engine/EngineProofs.v", "Engine/ScriptProofs.v", "C02/Process.v", "C02/Combinators.v", "C02/Props.v"]
 INF = 10 ** 18
 
 
